@@ -8,6 +8,7 @@ import (
 	"go/token"
 	"go/types"
 	"math/big"
+	"os"
 	"sort"
 	"strings"
 
@@ -719,6 +720,27 @@ func (f *frame) backEdge(li *loopInfo, from *ssa.BasicBlock, pc string, h *Heap)
 		ts, ls := e.conjuncts(env, c.Expr, "")
 		for i := range ts {
 			e.ob(f, "inv-keep", c.clabel(ls[i]), c.tagsOr(f.tags), pc, ts[i], f.loopPos(li))
+		}
+	}
+	if bes := f.loopClauses(li, "backedge"); len(bes) > 0 {
+		// conditions that must hold whenever the loop goes round again (e.g. "a skipped message was not selected")
+		env := f.specEnv(h, nil, nil)
+		f.bindLocalsI(env, from, nil, true, li.blocks)
+		if os.Getenv("GOVC_DEBUG_ENV") != "" {
+			var ks []string
+			for k := range env.vars {
+				ks = append(ks, k)
+			}
+			sort.Strings(ks)
+			fmt.Fprintf(os.Stderr, "backedge env from b%d: %v (loop blocks %d)\n", from.Index, ks, len(li.blocks))
+		}
+		head := f.specEnv(li.headHeap, b, li.phiAtHead)
+		env.headEnv = head
+		for _, c := range bes {
+			ts, ls := e.conjuncts(env, c.Expr, "")
+			for i := range ts {
+				e.ob(f, "backedge", c.clabel(ls[i]), c.tagsOr(f.tags), pc, ts[i], f.loopPos(li))
+			}
 		}
 	}
 	f.frameObs("frame-keep", pc, li.headHeap, h, f.loopPos(li))
